@@ -343,8 +343,12 @@ func checkC01(c *lib.Ctx) {
 	r := c.R
 	res := &xfRes{r: r}
 	thorough := c.Tier == "thorough"
-	r.Rule = "transfers = server kind {os, rs} x {allocator off,on} x {max-tx default, 65536} plus scripted peer {in order, permuted replies} x client options MaxPacket{Checked,Unchecked} mp in {1,2,3,4,7,32768} x MaxConcurrentRequestsPerFile in {1,2,3,64} x UseConcurrentReads x UseConcurrentWrites x UseFstat (quick: every (mp,conc) pair per server kind with the booleans rotating; thorough: the full product) x API {ReadAt, Read, WriteTo, WriteAt, Write, ReadFrom with sources Len/Size/Stat/LimitedReader/opaque(+1-byte reads, lying or negative Size, oversized limit), ReadFromWithConcurrency 0/1/3} x (file size, offset, length) from {0,1,k*mp-1,k*mp,k*mp+1 (k=1..3), mp*conc+r} and uniform draws up to 3*mp*conc+2 (thorough: every length 0..3*mp*conc+2 for mp<=7, conc<=3); a case is non-trivial when it needs more than one packet or touches end of file; distinct by (server, options, api, source, sizes)"
+	r.Rule = "transfers = server kind {os, rs} x {allocator off,on} x {max-tx default, 65536} plus scripted peer {in order, permuted replies} x client options MaxPacket{Checked,Unchecked} mp in {1,2,3,4,7,32768} x MaxConcurrentRequestsPerFile in {1,2,3,64} x UseConcurrentReads x UseConcurrentWrites x UseFstat (quick: every (mp,conc) pair three times per server kind with the booleans rotating; thorough: the full product) x API {ReadAt, Read, WriteTo, WriteAt, Write, ReadFrom with sources Len/Size/Stat/LimitedReader/opaque(+1-byte reads, lying or negative Size, oversized limit), ReadFromWithConcurrency 0/1/3} x (file size, offset, length) from {0,1,k*mp-1,k*mp,k*mp+1 (k=1..3), mp*conc+r} and uniform draws up to 3*mp*conc+2 (thorough: every length 0..3*mp*conc+2 for mp<=7, conc<=3); a case is non-trivial when it needs more than one packet or touches end of file; distinct by (server, options, api, source, sizes)"
 	model := xfProbeModel(c)
+	xfProbeDefects(&model)
+	if model.Seq {
+		r.Note("every outcome (offset after, n, error class, data hash, served file) is also compared with the Lean driver ops xfer.readat / xfer.seq (switches wtm=%d rfm=%d taken from the implementation)", model.WTM, model.RFM)
+	}
 	if model.Plan {
 		r.Note("wire plans recorded on the scripted peer are compared with the Lean driver op xfer.plan")
 	} else {
@@ -357,6 +361,10 @@ func checkC01(c *lib.Ctx) {
 	}
 	defer os.RemoveAll(root)
 	ml := &xfModelLines{}
+	mc := &xfSeqCompare{}
+	if thorough {
+		mc.oneIn = 8
+	}
 
 	runCase := func(cs xfCase, real *xfReal, dir string, hold *xfPeerHold) {
 		out := xfExec(cs, real, dir, hold)
@@ -406,9 +414,8 @@ func checkC01(c *lib.Ctx) {
 				ml.add(fmt.Sprintf("xfer.plan %d %d %d", cs.Cfg.MP, cs.Off, cs.Len), xfPlanText(xfDataReqs(out.Log, e.Typ)))
 			}
 		}
-		if model.ReadAt && cs.API == "ReadAt" && cs.ShortCap == 0 && cs.FileLen <= 150000 && cs.Len <= 150000 { // (the model works on byte lists; MB-sized cases take seconds)
-			ml.add(fmt.Sprintf("xfer.readat %s %d %d %d -", model.cfgToken(cs.Cfg, xfMaxTx(cs.Srv)), cs.FileLen, cs.Off, cs.Len),
-				fmt.Sprintf("%d %s %d", out.N, xfErrClass(out.Err), xfHash(out.Data)))
+		if cs.ShortCap == 0 && cs.FileLen <= 150000 && cs.Len <= 150000 { // (the model works on byte lists; MB-sized cases take seconds)
+			mc.addCase(model, cs, out, xfMaxTx(cs.Srv))
 		}
 	}
 
@@ -429,6 +436,7 @@ func checkC01(c *lib.Ctx) {
 		}
 		runCase(cs, real, root, nil)
 		ml.compare(c, "c01")
+		mc.compare(c, "c01")
 		return
 	}
 
@@ -437,7 +445,7 @@ func checkC01(c *lib.Ctx) {
 	var jobs []xfJob
 	rot := int(c.Seed % 8)
 	for si, sp := range specs {
-		cfgs := xfCoverCfgs(si*3 + rot)
+		cfgs := append(append(xfCoverCfgs(si*3+rot), xfCoverCfgs(si*3+rot+1)...), xfCoverCfgs(si*3+rot+2)...)
 		if thorough {
 			cfgs = xfAllCfgs()
 		}
@@ -548,4 +556,5 @@ func checkC01(c *lib.Ctx) {
 		}
 	})
 	ml.compare(c, "c01")
+	mc.compare(c, "c01")
 }
